@@ -13,6 +13,29 @@ def AllWs (w : Str) : Prop := ∀ c ∈ w, isWs c = true
 def Clean (s : Str) : Prop :=
   (∃ c, s.head? = some c ∧ isWs c = false) ∧ (∃ c, s.getLast? = some c ∧ isWs c = false)
 
+/-- boolean test for `Clean`, for concrete strings -/
+def cleanB (s : Str) : Bool :=
+  (match s.head? with | some c => !isWs c | none => false) && (match s.getLast? with | some c => !isWs c | none => false)
+
+theorem clean_of_cleanB {s : Str} (h : cleanB s = true) : Clean s := by
+  unfold cleanB at h
+  rw [Bool.and_eq_true] at h
+  obtain ⟨h1, h2⟩ := h
+  constructor
+  · cases hh : s.head? with
+    | none => simp [hh] at h1
+    | some c => exact ⟨c, rfl, by simpa [hh] using h1⟩
+  · cases hh : s.getLast? with
+    | none => simp [hh] at h2
+    | some c => exact ⟨c, rfl, by simpa [hh] using h2⟩
+
+def padB (w : Str) : Bool := w.all (fun c => c == ' ' || c == '\t')
+
+theorem allPad_of_padB {w : Str} (h : padB w = true) : AllPad w := by
+  intro c hc
+  have := List.all_eq_true.mp h c hc
+  simpa using this
+
 theorem isWs_space : isWs ' ' = true := by decide
 theorem isWs_tab : isWs '\t' = true := by decide
 theorem isWs_nl : isWs '\n' = true := by decide
